@@ -11,15 +11,19 @@ def ob(name, defs, **kw):
              unwindset={'harness.0': 65, 'sym_load.*': 17}, solver='kissat', timeout=600, mem_gb=6, checks=CK)
     o.update(kw)
     return o
+# idiff_strp(): the digit loops (.0, .3) nest inside the backward gotos more_date (.1 W, .2 D) and more_time (.4 H, .5 M, .6 S); each
+# letter is accepted once, so 2 unwindings per goto loop are exact (checked by the unwinding assertions); a blanket --unwind 12 made
+# symex walk 12^3 copies
+IDP = {'idiff_strp.0': 7, 'idiff_strp.1': 3, 'idiff_strp.2': 3, 'idiff_strp.3': 7, 'idiff_strp.4': 3, 'idiff_strp.5': 3, 'idiff_strp.6': 3}
 OBLIGATIONS = [
     ob('dt_iso_roundtrip', ['DT_ISO'], enc=['dt_strf', 'dt_strp', 'ui32tpstr'], sym='all fields of the instant, its kind, NUL-terminated vs explicit length',
        bounds='every valid instant 1901..2099 (date-only, second and millisecond resolution)'),
     ob('dt_ical_roundtrip', ['DT_ICAL'], enc=['dt_strf_ical', 'dt_strp', 'ui32tpstr'], sym='all fields of the instant, its kind', bounds='every valid date-only / second-resolution instant'),
-    ob('idiff_roundtrip_days', ['IDIFF', 'DMAX=4000', 'DAYSONLY'], enc=['idiff_strf', 'idiff_strp', 'ui32tostr', 'ilog10_ceil', 'ilog2_ceil'], sym='the number of days', bounds='0 .. 4000 whole days'),
-    ob('idiff_roundtrip_subday', ['IDIFF', 'SUBDAY'], enc=['idiff_strf', 'idiff_strp', 'ui32tostr', 'ilog10_ceil'], sym='hours, minutes, seconds', bounds='every whole-second duration below one day'),
-    ob('idiff_roundtrip', ['IDIFF', 'DMAX=4000'], enc=['idiff_strf', 'idiff_strp', 'ui32tostr', 'ilog10_ceil', 'ilog2_ceil'], sym='the duration', bounds='0 .. 4000 days in whole seconds', tiers=('thorough',), timeout=3400),
+    ob('idiff_roundtrip_days', ['IDIFF', 'DMAX=4000', 'DAYSONLY'], enc=['idiff_strf', 'idiff_strp', 'ui32tostr', 'ilog10_ceil', 'ilog2_ceil'], sym='the number of days', bounds='0 .. 4000 whole days', unwindset=dict(IDP, **{'harness.0': 65, 'sym_load.*': 17})),
+    ob('idiff_roundtrip_subday', ['IDIFF', 'SUBDAY'], enc=['idiff_strf', 'idiff_strp', 'ui32tostr', 'ilog10_ceil'], sym='hours, minutes, seconds', bounds='every whole-second duration below one day', unwindset=dict(IDP, **{'harness.0': 65, 'sym_load.*': 17})),
+    ob('idiff_roundtrip', ['IDIFF', 'DMAX=4000'], enc=['idiff_strf', 'idiff_strp', 'ui32tostr', 'ilog10_ceil', 'ilog2_ceil'], sym='the duration', bounds='0 .. 4000 days in whole seconds', tiers=('thorough',), timeout=3400, unwindset=dict(IDP, **{'harness.0': 65, 'sym_load.*': 17})),
     ob('idiff_spellings', ['SPELL'], enc=['idiff_strp'], sym='15 digits, digit counts, which components are present, leading sign',
-       bounds='components of 1..3 digits each (weeks, days, hours, minutes, seconds up to 999)', unwindset={'harness.*': 65, 'idiff_strp.*': 5, 'sym_load.*': 17}),
+       bounds='components of 1..3 digits each (weeks, days, hours, minutes, seconds up to 999)', unwindset=dict(IDP, **{'harness.*': 65, 'sym_load.*': 17})),
     ob('range_roundtrip', ['RANGE'], enc=['range_strf', 'range_strp', 'dt_strf', 'dt_strp'], sym='both instants', bounds='every pair of valid instants'),
     ob('ui32tostr_digits', ['DIGITS'], enc=['ui32tostr', 'ilog10_ceil', 'ilog2_ceil'], sym='the 32-bit value', bounds='all values 1..2^32-1'),
 ]
